@@ -3219,6 +3219,10 @@ KERNELS += [
 # parameter names before the stretch are the ones the model passes, and what the handler does with the results
 # afterwards — those stay with the sampled correspondence.
 ERROR_TYPES = ERROR_TYPES + ("VaultError",)
+SEM += [
+    R("bin", "*", ("Decimal", "Uint128"), "Uint128", "u128MulDec {1} {0}", "bind",
+      "decimal.rs `impl Mul<Uint128> for Decimal { fn mul(self, rhs: Uint128) -> Uint128 { rhs * self } }`: the row of `Uint128 * Decimal` with the operands exchanged (both operands are values already evaluated, left first)"),
+]
 STRUCTURAL += [
     ("fragment kernel (`fragment=dict(start, end, params, result)`)",
      "the consecutive source lines start..end of a handler, parsed as one block; free variables = typed parameters; result = tuple of named locals; `?` / `return Err` = `Res.err`"),
@@ -3319,6 +3323,28 @@ KERNELS += [
          types={"Config": "VaultConfig", "VaultFee": "VaultFee", "Fee": "Fee"},
          props=["C05", "C06", "C07"], model="WW.Vault.fee / the first two tests of WW.Vault.afterTradeOk",
          theorem="WW.KernelsVault.gen_vault_after_trade_settlement_eq_model", module="WW.Props.Kernels.Vault"),
+]
+
+KERNELS += [
+    dict(lean="vault_payback_amount", file=VAULT_SRC + "queries/get_payback_amount.rs", fn="get_payback_amount",
+         fragment=dict(start=r"^\s*let protocol_fee\s*=", end=r"^\s*\.checked_add\(burn_fee\)\?;",
+                       params=[("config", "Config"), ("amount", "Uint128")],
+                       result=["protocol_fee", "flash_loan_fee", "burn_fee", "required_amount"]),
+         types={"Config": "VaultConfig", "VaultFee": "VaultFee", "Fee": "Fee"},
+         props=["C06"], model="WW.Vault.payback / WW.Vault.fee",
+         theorem="WW.KernelsVault.gen_vault_payback_amount_eq_model", module="WW.Props.Kernels.Vault"),
+    dict(lean="vault_withdraw_amount", file=VAULT_SRC + "execute/receive/withdraw.rs", fn="withdraw",
+         fragment=dict(start=r"^\s*let withdraw_amount\s*=", end=r"^\s*let withdraw_amount\s*=",
+                       params=[("amount", "Uint128"), ("total_share", "Uint128"), ("total_asset_amount", "Uint128")],
+                       result=["withdraw_amount"]),
+         props=["C05"], model="WW.Vault.shareOf",
+         theorem="WW.KernelsVault.gen_vault_withdraw_amount_eq_model", module="WW.Props.Kernels.Vault"),
+    dict(lean="vault_share_query_amount", file=VAULT_SRC + "queries/get_share.rs", fn="get_share",
+         fragment=dict(start=r"^\s*let asset_share\s*=", end=r"^\s*let asset_share\s*=",
+                       params=[("amount", "Uint128"), ("lp_amount", "Uint128"), ("balance", "Uint128")],
+                       result=["asset_share"]),
+         props=["C05"], model="WW.Vault.shareOf",
+         theorem="WW.KernelsVault.gen_vault_share_query_amount_eq_model", module="WW.Props.Kernels.Vault"),
 ]
 
 # the generated file imports the map primitives next to the number primitives
